@@ -9,6 +9,12 @@ ODO = [("QuartzModel.Proofs.Odometer", t) for t in ["Odo.findForward_spec", "Odo
 SCHEDFACTS = [("QuartzModel.Theorems.SchedFacts", "Sched." + t) for t in ["validate_branches", "misfire_offer_nonblocking", "step_order", "classify_spec"]]
 
 THEOREMS = {
+    "C13": [("QuartzModel.Theorems.C13", "Sched.Retry." + t) for t in [
+        "C13_facts", "C13_attempts", "C13_attempts_general", "C13_attempts_structure", "C13_stops_on_success", "C13_cancel_stops",
+        "C13_cancel_bound", "C13_cancelled_last", "C13_interval", "C13_interval_time", "C13_panic_ends_sequence", "C13_recovered_iff", "C13_returns"]],
+    "C17": [("QuartzModel.Theorems.C17", "Jobs.Isolated." + t) for t in [
+        "C17_facts", "C17_flag_iff", "C17_mutex", "C17_mutex_running", "C17_fail_fast", "C17_busy_only_if_rejected", "C17_reopens",
+        "C17_admitted_when_free", "C17_reopens_progress", "C17_reopens_fails_without_defer", "C17_rejected_for_ever_without_defer"]],
     "C12": [("QuartzModel.Theorems.C12", "Pool." + t) for t in [
         "C12_facts", "C12_blocking_le_one", "C12_blocking_ignores_worker_limit", "C12_pool_le_n", "C12_pool_reaches_n",
         "C12_pool_full_blocks", "C12_unbounded_loop_never_waits", "C12_unbounded_no_bound",
